@@ -5,6 +5,15 @@ import json
 from harness.core import pipeline, gallina as G, values as V, env
 
 PROP_ID = "C06"
+MANIFEST_ENTRY = {
+    "text": ("Theorems over all reply values (Coq, closed under the global context) about a Gallina model of check_for_errors / "
+             "proxy result extraction / MultiCall access; the model is checked against the real code on the exhaustive "
+             "error x envelope x result x access-path product on every run."),
+    "note": ("CPython truthiness/in/dict lookup/float() and the json round trip of the reply text are modelled, not verified; "
+             "envelope domain: 'jsonrpc' absent or <= 2.0."),
+    "technique": "Coq proof over a hand-written executable model + differential correspondence check (vm_compute) + property oracle",
+    "design_ref": "DESIGN.md 4/C06",
+}
 ANCHOR_RANGES = [("jsonrpclib/jsonrpc.py", 1352, 1409), ("jsonrpclib/jsonrpc.py", 900, 924), ("jsonrpclib/jsonrpc.py", 630, 632)]
 RULE = ("exhaustive product of error values (objects with every subset of code/message/trace/data x 18 codes around both "
         "range boundaries, numeric and not; codeless objects; strings, numbers, booleans, arrays) x envelope form x result "
